@@ -12,7 +12,9 @@ PARALLEL = 8
 RULE = ("random graphs of 1-6 nodes (90% symmetric), a table-driven synchronous test algorithm sending an "
         "oracle-chosen payload to an arbitrary subset of neighbours each round via post_msg and/or the "
         "returned list (85% valid plans, 15% with duplicate / non-neighbour targets to reach the error "
-        "branches), random start orders and per-channel-FIFO schedules from 6 policies; plus the real "
+        "branches), random start orders and per-channel-FIFO schedules from 6 policies, 25% of them with "
+        "pause/resume of started computations (a stutter of the model: held messages are not model "
+        "deliveries); plus the real "
         "dsatuto and maxsum computations on random DCOPs (oracle only). non-trivial = at least one "
         "on_new_cycle call with a non-empty message dict; distinct = distinct case JSON")
 MODELLED = ("SynchronousComputationMixin (__init__, _sync_message_handler, post_msg, start, _switch_cycle) and "
@@ -29,7 +31,8 @@ META = dict(
                 "the same schedules on the real mixin (thread-free driver) and comparing every on_new_cycle "
                 "argument, exception, cycle counter and in-flight message."),
     level_note=("Trusted: Coq kernel/vm_compute, M_SyncMixin.v + Net.v as a rendering of the Python code, the "
-                "thread-free netdriver (real agent threads/queues are C18/C21's subject). Pause/resume is C19's."),
+                "thread-free netdriver (real agent threads/queues are C18/C21's subject). Pause/resume enters "
+                "only as a stutter of the model (its own ordering contract is C19's)."),
     technique="Coq invariant proof over an executable network model + schedule-replay correspondence",
     design_ref="DESIGN.md §5 C08",
 )
@@ -46,6 +49,8 @@ def gen(rng, n, tier):
         if r < 0.12:
             cases.append(dict(kind="real", algo=rng.choice(["dsatuto", "maxsum"]), seed=rng.randrange(10**9),
                               nvars=rng.randint(2, 5), steps=rng.randint(20, 120)))
+            if rng.random() < 0.3:
+                cases[-1]["pause"] = rng.choice([0.05, 0.15])
             continue
         nn = rng.randint(1, 6)
         adj = {i: [] for i in range(nn)}
@@ -100,6 +105,9 @@ def gen(rng, n, tier):
         cases.append(dict(kind="table", n=nn, adj={str(i): adj[i] for i in adj}, symmetric=symmetric, valid=valid,
                           plan={str(i): plan[i] for i in plan}, seed=rng.randrange(10**9),
                           steps=rng.randint(5, 90)))
+        if rng.random() < 0.25:
+            # pause / resume of started computations during the run (a stutter of the model)
+            cases[-1]["pause"] = rng.choice([0.05, 0.15, 0.3])
     return cases
 
 
@@ -178,12 +186,12 @@ def _run_table(c):
                     kind = 4
                 log.append(["raise", e[1], kind, e[2]])
     drv.do = do
-    drv.run_random(rng, max_steps=c["steps"], policy=pick_policy(rng, list(comps)))
+    drv.run_random(rng, max_steps=c["steps"], policy=pick_policy(rng, list(comps)), pause_prob=c.get("pause", 0.0))
     inflight = []
     for (s, d), ql in sorted(drv.chans.items()):
         if d in comps:
             inflight.append([s, d, [[m.cycle_id, getattr(m, "value", None) if m.type == "tbl" else None] for m in ql]])
-    return dict(log=log, sched=drv.schedule, cycles=[[n_, comps[n_].current_cycle] for n_ in sorted(comps)],
+    return dict(log=log, sched=drv.model_schedule, nsched=len(drv.schedule), cycles=[[n_, comps[n_].current_cycle] for n_ in sorted(comps)],
                 inflight=inflight, sends=sends)
 
 
@@ -262,7 +270,7 @@ def _run_real(c):
             if e[0] == "raise":
                 log.append(["raise", e[1], 0, e[2] + ": " + e[3]])
     drv.do = do
-    drv.run_random(rng, max_steps=c["steps"], policy=pick_policy(rng, list(comps)))
+    drv.run_random(rng, max_steps=c["steps"], policy=pick_policy(rng, list(comps)), pause_prob=c.get("pause", 0.0))
     nbrs = {n_: list(comps[n_].neighbors) for n_ in comps}
     return dict(log=log, sends=sends, nbrs=nbrs, nsched=len(drv.schedule))
 
